@@ -43,6 +43,7 @@ type Rec struct {
 	Obs        map[string]int64       `json:"obs,omitempty"`    // counters observed by the monitors
 	Sample     map[string]interface{} `json:"sample,omitempty"` // the case written out
 	Why        string                 `json:"why,omitempty"`    // reason for inconclusive
+	Ms         int64                  `json:"ms,omitempty"`     // wall time of the case
 	Input      string                 `json:"input,omitempty"`  // hex input, written at start for decoder cases
 
 	Cases int                    `json:"cases,omitempty"` // done: number of cases this shard ran
